@@ -513,6 +513,9 @@ def show(t, depth=0, limit=6):
     if k == 'cat':
         return '{' + ', '.join('%s[%d+:%d]' % (show(a, depth + 1, limit), lo, ln) if not (lo == 0 and ln == width(a)) else show(a, depth + 1, limit)
                                for (a, lo, ln) in t[2]) + '}'
+    if k == 'bx':
+        import bitform
+        return 'xor{' + ', '.join(bitform.atom_name(a, depth + 1, limit) for a in t[2][:6]) + (', ..%d more' % (len(t[2]) - 6) if len(t[2]) > 6 else '') + '}'
     if k == 'lin':
         s = ' + '.join(('%s' % show(x, depth + 1, limit)) if c == 1 else '%#x*%s' % (c, show(x, depth + 1, limit)) for x, c in t[3])
         return '(%s%s)' % (s, ' + %#x' % t[2] if t[2] else '')
